@@ -203,6 +203,10 @@ def caps_key(j):
     for k in ("thin", "ofs", "sideband"):
         if k in c and not c[k]:
             bits.append("no-" + k)
+    if j.get("sgrafts"):
+        bits.append("sender-grafts:" + ";".join(f"c{c}<-" + (",".join(f"c{q}" for q in ps) or "root") for c, ps in j["sgrafts"]))
+    if j.get("sshal"):
+        bits.append("sender-shallow:" + ",".join(f"c{i}" for i in j["sshal"]))
     if j.get("via"):
         bits.append("via:" + j["via"])
     if j.get("default_refspec"):
@@ -516,6 +520,30 @@ def extra_jobs(ctx):
                 if tr == "porcelain":
                     j["via"] = "tcp"
                 out.append(j)
+    # ---- state of the SENDING repository that must never shape what it sends: an info/grafts file
+    # (hiding a parent, adding a fake one; every object present) and a sender that is a shallow clone
+    # (then a transfer that needs what is missing has to fail, not succeed truncated)
+    #   c1 - c2 - c3 - c4      c5 = child of c1 on a branch of its own
+    sc = {"U": {"par": [[], [1], [2], [3], [1]], "tr": [1, 2, 3, 5, 2], "ent": POOL, "lnk": POOL_LINK, "tg": []},
+          "sh": [4, 5], "full": 0, "rt": [], "wants": [["c", 4]], "forged": 0}
+    cfgs = [dict(sgrafts=[[3, []]]), dict(sshal=[3], sh=[4]), dict(sgrafts=[[2, [1, 5]]]), dict(sgrafts=[[4, [2]]]),
+            dict(sgrafts=[[3, []]], sshal=[2], sh=[4])]
+    strs = [("fetch", "tcp"), ("fetch", "local"), ("fetch", "http"), ("fetch", "gitclient"), ("fetch", "localpack"), ("fetch", "mofapi"),
+            ("fetch", "githttp"), ("clone", "tcp"), ("clone", "local"), ("clone", "http"), ("fetch", "porcelain"), ("clone", "porcelain")]
+    for ci, cfg in enumerate(cfgs[:ctx.pick(3, len(cfgs))]):
+        for ti, (op, tr) in enumerate(strs[:ctx.pick(4, len(strs))]):
+            for rh in ([[]] if ctx.quick or op == "clone" else [[], [1]]):
+                j = dict(sc)
+                j.update(cfg)
+                j.update(op=op, transport=tr, rh=rh, caps={"mode": "detailed"} if tr in ("tcp", "http") else {}, space="sendercfg",
+                         gitcheck=1, slayout="loose")
+                if tr == "porcelain":
+                    j["via"] = ["tcp", "http", "path"][(ci + ti) % 3]
+                out.append(j)
+                if cfg.get("sshal") and op == "fetch" and tr in ("tcp", "local", "http") and not ctx.quick:
+                    j2 = dict(j)        # what a shallow sender can serve: a depth that stays above its boundary
+                    j2.update(steps=[{"wants": [["c", 4]], "depth": 1}], depth=1)
+                    out.append(j2)
     # ---- a shallow dulwich client against C git upload-pack (which honours haves in shallow sessions):
     #   c1(R) - c2(P) - c3(X)      c4(S) = child of R,  c5(M) = merge(X, S)
     # depth-1 clone of X, then (a) deepen to 2: P must arrive, (b) ordinary fetch of M: S and R must
@@ -549,7 +577,7 @@ def extra_jobs(ctx):
 
 
 # --------------------------------------------------------------------------- judge
-TRACE_KEYS = ("tid", "U", "op", "snd", "rcv", "sstore", "srefs", "r0", "rtips0", "shal0", "depth", "r1", "rtips1", "shal1",
+TRACE_KEYS = ("tid", "U", "op", "snd", "rcv", "sstore", "srefs", "sshal", "r0", "rtips0", "shal0", "depth", "r1", "rtips1", "shal1",
               "runk", "idbad", "gitok",
               "wants", "mwants", "forged", "inctag", "ok", "cap", "sent", "sunk", "thin", "hk", "haves", "offered", "mode", "srv", "cli",
               "rheads", "miv")
